@@ -16,6 +16,7 @@ Tie to the source
 import copy
 import hashlib
 import json
+import os
 import re
 import time
 from concurrent.futures import ThreadPoolExecutor
@@ -393,6 +394,8 @@ def build(spec):
                 p.add(sl, a.start.t, b.end.t)
         if ps.get("words"):
             p.add(S.Words("dolce"), 0)
+        if ps.get("repeat") and tmax > 0:
+            p.add(S.Repeat(), 0, tmax)
         if ps.get("measures") and tmax > 0:
             m, k = 0, 1
             while m < tmax:
@@ -661,6 +664,413 @@ def run_driver(ctx):
             ctx.violation("driver correspondence could not be evaluated in Coq: " + str(detail)[-600:], {"kind": "coq", "error": detail}, no_input=True)
         else:
             ctx.violation("Coq driver model and transpose() disagree (the Python oracle accepted the case)", kept[i])
+
+
+# ----------------------------------------------------------------------------
+# SCORE-HISTORY stream: the ARGUMENT of transpose() has a history.  One live Score (or Part) per history; operations
+#   ["set", i, partspec]            score[i] = freshly built part            (Score.__setitem__ changes `parts` only)
+#   ["append", partspec] / ["pop", i]   score.parts.append(part) / score.parts.pop(i)   (the documented attribute is a plain list)
+#   ["unfold", "max"|"min"]         score = unfold_part_maximal/minimal(score)  (deep copy whose `parts` are replaced)
+#   ["edit", i, "add"|"del"|"pitch", ...]  a part reachable through score.parts edited in place
+#   ["tr", n, q, d]                 transpose(score, Interval(n, q, d)) -- judged, the argument kept (so the same argument
+#                                   is transposed again later, by another interval)
+#   ["adopt", n, q, d]              score = transpose(score, Interval(n, q, d))  (the RESULT is transposed again)
+# Every "tr" is judged note by note against the CURRENT parts of the argument: every element of every part reachable
+# through result.parts, result[i], iter(result) (the three views must show the same objects) and the rows of
+# result.note_array() moved by the interval, everything else as in the argument, the argument unchanged, nothing shared.
+# The observed history is replayed through the Gallina machine of Model/C16_Hist.v (sh_case_ok).
+
+def _parts_of(obj):
+    import partitura.score as S
+    return list(obj.parts) if isinstance(obj, S.Score) else [obj]
+
+
+def gen_score_history(rng):
+    all_ivs = [(n, QUALS[qi], d) for n, qi in classes_model_order() for d in ("up", "down")]
+    kind = rng.choice(["score", "score", "score", "part"])
+    nparts = 1 if kind == "part" else rng.choice([1, 2, 2, 3])
+
+    def part(pid):
+        ps = gen_part_spec(rng, pid, 3)
+        ps["repeat"] = rng.random() < 0.3
+        return ps
+
+    used = []
+
+    def tr():
+        # 45 %: an interval this history has used before (the same argument object asked the same question again after it
+        # has changed), else any class / direction
+        iv = rng.choice(used) if used and rng.random() < 0.45 else rng.choice(all_ivs)
+        used.append(iv)
+        # 20 %: the interval number is a numpy integer
+        return ["tr", iv[0], iv[1], iv[2]] + ([rng.choice(["int64", "int32", "int8"])] if rng.random() < 0.2 else [])
+
+    def newid(k):
+        # half of the parts put into a score later carry the id of a part it was built from
+        return "S%d" % k if rng.random() < 0.5 else "P%d" % rng.randrange(3)
+
+    init = {"arg": kind, "parts": [part("P%d" % k) for k in range(nparts)],
+            "group": kind == "score" and nparts >= 2 and rng.random() < 0.4}
+    ops, nsp = [], 0
+    if rng.random() < 0.4:
+        ops.append(tr())
+    for _ in range(rng.randint(2, 6)):
+        r = rng.random()
+        if r < 0.24 and kind == "score":
+            nsp += 1
+            ops.append(["set", rng.randrange(3), part(newid(nsp))])
+        elif r < 0.30 and kind == "score":
+            nsp += 1
+            ops.append(rng.choice([["append", part(newid(nsp))], ["pop", rng.randrange(3)]]))
+        elif r < 0.40:
+            ops.append(["unfold", rng.choice(["max", "min"])])
+        elif r < 0.58:
+            ek = rng.choice(["add", "del", "pitch", "pitch"])
+            if ek == "add":
+                ops.append(["edit", rng.randrange(3), "add", rand_pitch(rng), rng.randint(0, 8), rng.randint(1, 4), rng.choice([1, 2])])
+            elif ek == "del":
+                ops.append(["edit", rng.randrange(3), "del", rng.randrange(12)])
+            else:
+                # 25 %: alteration and octave assigned as numpy integers (what notes built from arrays carry)
+                ops.append(["edit", rng.randrange(3), "pitch", rng.randrange(12), rand_pitch(rng)] + ([rng.choice(["int64", "int32"])] if rng.random() < 0.25 else []))
+        elif r < 0.70:
+            ops.append(["adopt"] + tr()[1:])   # (may carry the numpy kind as well)
+        else:
+            ops.append(tr())
+    ops.append(tr())
+    return {"init": init, "ops": ops}
+
+
+def _note_rows(obj):
+    """rows of obj.note_array() with pitch spelling and grace notes, or None when the argument has no such array"""
+    try:
+        na = obj.note_array(include_pitch_spelling=True, include_grace_notes=True)
+        return [(str(r["id"]), int(r["onset_div"]), int(r["duration_div"]), int(r["voice"]), int(r["pitch"]),
+                 str(r["step"]), int(r["alter"]), int(r["octave"])) for r in na]
+    except Exception:
+        return None
+
+
+def judge_transposition(arg, iv, numkind=None):
+    """transpose(arg, iv) judged against the CURRENT parts of arg.  Returns (messages, result, before, seen):
+    before / seen = per-part flattened lists of the argument before the call / of the result (through .parts)."""
+    import partitura.score as S
+    from partitura.utils.music import transpose
+
+    n, q, d = iv
+    up, sem = d == "up", spec_semitones(n, q)
+    parts0 = _parts_of(arg)
+    before = [flatten(p) for p in parts0]
+    whole = flatten(arg)
+    ids0 = [id(p) for p in parts0]
+    rows0 = _note_rows(arg)
+    msgs = []
+    try:
+        if numkind:
+            import numpy as np
+            res = transpose(arg, S.Interval(getattr(np, numkind)(n), q, d))
+        else:
+            res = transpose(arg, S.Interval(n, q, d))
+    except Exception as e:
+        return ["transpose raised %s: %s" % (type(e).__name__, e)], None, before, None
+    if flatten(arg) != whole or [id(p) for p in _parts_of(arg)] != ids0:
+        msgs.append("the argument was modified by transpose")
+    if type(res) is not type(arg):
+        return msgs + ["result is a %s, the argument a %s" % (type(res).__name__, type(arg).__name__)], res, before, None
+    if isinstance(res, S.Score):
+        v1 = list(res.parts)
+        try:
+            v2 = [res[i] for i in range(len(res))]
+            v3 = list(iter(res))
+        except Exception as e:
+            return msgs + ["reading the result raised %s: %s" % (type(e).__name__, e)], res, before, None
+        views = [("result.parts", v1)]
+        for name, v in (("result[i]", v2), ("iter(result)", v3)):
+            if len(v) != len(v1) or any(a is not b for a, b in zip(v, v1)):
+                msgs.append("%s and result.parts show different part objects" % name)
+                views.append((name, v))
+    else:
+        views = [("result", [res])]
+    seen = None
+    for name, v in views:
+        if len(v) != len(before):
+            msgs.append("%s has %d parts, the argument holds %d" % (name, len(v), len(before)))
+            continue
+        fl = [flatten(p) for p in v]
+        if seen is None:
+            seen = fl
+        for k, (b, r) in enumerate(zip(before, fl)):
+            if [(key, f) for key, f, _ in b] != [(key, f) for key, f, _ in r]:
+                msgs.append("part %d reached through %s: onsets/durations/voices/ties/other elements differ from part %d the argument holds now"
+                            % (k, name, k))
+                continue
+            bad = None
+            for (key, f, p0), (_, _, p1) in zip(b, r):
+                if p0 is None:
+                    if p1 is not None:
+                        bad = "unpitched element %r got a pitch" % (key,)
+                        break
+                    continue
+                exp = spec_transpose(*canon_pitch(p0), n, sem, up)
+                if canon_pitch(p1) != exp:
+                    bad = ("note %s of part %d reached through %s: the argument's part holds %r now, the result %r, expected %r"
+                           % (key[3].split("|")[0], k, name, tuple(p0), tuple(p1), (STEPS7[exp[0]], exp[1], exp[2])))
+                    break
+            if bad:
+                msgs.append(bad)
+    shared = objects_of(arg) & objects_of(res)
+    if shared:
+        msgs.append("result shares %d objects with the argument (not a new score/part)" % len(shared))
+    if rows0 is not None:
+        rows1 = _note_rows(res)
+        sg = 1 if up else -1
+        exp_rows = []
+        for (i_, on, du, vo, pi, st, al, oc) in rows0:
+            e = spec_transpose(STEP_IDX[st], al, oc, n, sem, up)
+            exp_rows.append((i_, on, du, vo, pi + sg * sem, STEPS7[e[0]], e[1], e[2]))
+        if rows1 is None:
+            msgs.append("result.note_array() raises, argument.note_array() does not")
+        elif sorted(rows1) != sorted(exp_rows):
+            diff = [(a, b) for a, b in zip(sorted(rows1), sorted(exp_rows)) if a != b][:1]
+            msgs.append("result.note_array(): rows are not the argument's rows moved by the interval (got, expected): %r" % (diff,))
+    return msgs, res, before, seen
+
+
+def run_score_history(h, stop_at_first=True):
+    """Execute one history.  Returns (failures [(op index, messages)], trace for Coq, counts)."""
+    import partitura.score as S
+
+    state = {"score": build(h["init"]), "last": None}
+    init_flat = [flatten(p) for p in _parts_of(state["score"])]
+    fails, trace, counts = [], [], {}
+    nedit = [0]
+
+    def cnt(k):
+        counts[k] = counts.get(k, 0) + 1
+
+    for oi, op in enumerate(h["ops"]):
+        sc = state["score"]
+        k = op[0]
+        if k == "set":
+            if isinstance(sc, S.Score) and len(sc) > 0:
+                i = op[1] % len(sc)
+                sc[i] = build({"arg": "part", "parts": [op[2]]})
+                trace.append(("set", i, flatten(sc.parts[i])))
+                cnt("op:setitem")
+        elif k in ("append", "pop"):
+            if not isinstance(sc, S.Score):
+                continue
+            if k == "append":
+                sc.parts.append(build({"arg": "part", "parts": [op[1]]}))
+            elif len(sc.parts) >= 2:
+                sc.parts.pop(op[1] % len(sc.parts))
+            else:
+                continue
+            trace.append(("replace", [flatten(p) for p in sc.parts]))
+            cnt("op:score.parts." + k)
+        elif k == "unfold":
+            try:
+                new = (S.unfold_part_maximal if op[1] == "max" else S.unfold_part_minimal)(sc)
+            except Exception:
+                cnt("op:unfold raised (skipped)")
+                continue
+            state["score"] = new
+            trace.append(("replace", [flatten(p) for p in _parts_of(new)]))
+            cnt("op:unfold")
+        elif k == "edit":
+            parts = _parts_of(sc)
+            if not parts:
+                continue
+            i = op[1] % len(parts)
+            p = parts[i]
+            notes = list(p.notes)
+            try:
+                if op[2] == "add":
+                    nedit[0] += 1
+                    st, al, oc = op[3]
+                    last = p.last_point.t if p.last_point is not None else 0
+                    t = min(op[4], last)
+                    p.add(S.Note(st, oc, al, id="%s_e%d" % (p.id, nedit[0]), voice=op[6]), t, t + op[5])
+                elif op[2] == "del":
+                    if len(notes) < 2:
+                        continue
+                    p.remove(notes[op[3] % len(notes)])
+                else:
+                    if not notes:
+                        continue
+                    nt = notes[op[3] % len(notes)]
+                    st, al, oc = op[4]
+                    if len(op) > 5:
+                        import numpy as np
+                        al = None if al is None else getattr(np, op[5])(al)
+                        oc = getattr(np, op[5])(oc)
+                        cnt("op:edit pitch with numpy integers")
+                    nt.step, nt.alter, nt.octave = st, al, oc
+            except Exception:
+                cnt("op:edit raised (skipped)")
+                continue
+            trace.append(("edit", i, flatten(p)))
+            cnt("op:edit " + op[2])
+        elif k in ("tr", "adopt"):
+            iv = (op[1], op[2], op[3])
+            msgs, res, before, seen = judge_transposition(sc, iv, op[4] if len(op) > 4 else None)
+            if len(op) > 4:
+                cnt("op:transpose with a numpy interval number")
+            cnt("op:transpose of a %s" % type(sc).__name__)
+            if msgs:
+                fails.append((oi, msgs))
+                if stop_at_first:
+                    break
+                continue
+            trace.append(("tr", iv, seen))
+            if k == "adopt":
+                state["score"] = res
+                trace.append(("adopt", iv))
+                cnt("op:adopt (the result is the next argument)")
+    return fails, (init_flat, trace), counts
+
+
+def shrink_score_history(h):
+    def fails(sub):
+        try:
+            return bool(run_score_history({"init": h["init"], "ops": list(sub)})[0])
+        except Exception:
+            return True
+    try:
+        ops = h["ops"]
+        if not fails(ops):
+            return h
+        ops = core.ddmin(list(ops), fails)
+        h2 = {"init": h["init"], "ops": ops}
+        # events of the initial parts
+        items = [(pi, ei) for pi, p in enumerate(h["init"]["parts"]) for ei in range(len(p["events"]))]
+
+        def mk(sub):
+            s2 = copy.deepcopy(h["init"])
+            keep = set(sub)
+            for pi, p in enumerate(s2["parts"]):
+                p["events"] = [e for ei, e in enumerate(p["events"]) if (pi, ei) in keep]
+            return s2
+
+        def fails2(sub):
+            try:
+                return bool(run_score_history({"init": mk(sub), "ops": ops})[0])
+            except Exception:
+                return True
+        if fails2(items):
+            h2 = {"init": mk(core.ddmin(items, fails2)), "ops": ops}
+        return h2
+    except Exception:
+        return h
+
+
+def hist_op_txt(op):
+    if op[0] == "set":
+        return "score[%d %% len] = part %s (%d events)" % (op[1], op[2]["id"], len(op[2]["events"]))
+    if op[0] == "append":
+        return "score.parts.append(part %s (%d events))" % (op[1]["id"], len(op[1]["events"]))
+    if op[0] == "pop":
+        return "score.parts.pop(%d %% len)" % op[1]
+    if op[0] == "unfold":
+        return "score = unfold_part_%simal(score)" % op[1]
+    if op[0] == "edit":
+        return "part %d %% len edited in place: %s %r" % (op[1], op[2], op[3:])
+    if op[0] == "adopt":
+        return "score = transpose(score, Interval(%s%d, %r, %r))" % ("numpy." + op[4] + " " if len(op) > 4 else "", op[1], op[2], op[3])
+    return "transpose(score, Interval(%s%d, %r, %r))" % ("numpy." + op[4] + " " if len(op) > 4 else "", op[1], op[2], op[3])
+
+
+def _cparts(fl):
+    return clist([celems(f) for f in fl])
+
+
+def score_history_term(init_flat, trace):
+    ops = []
+    for t in trace:
+        if t[0] == "set":
+            ops.append("(ShSet %d %s, [])" % (t[1], celems(t[2])))
+        elif t[0] == "edit":
+            ops.append("(ShEdit %d %s, [])" % (t[1], celems(t[2])))
+        elif t[0] == "replace":
+            ops.append("(ShReplaceAll %s, [])" % _cparts(t[1]))
+        elif t[0] == "adopt":
+            n, q, d = t[1]
+            ops.append("(ShAdopt %s %s %s, [])" % (zt(n), zt(QUALS.index(q)), cbool(d == "up")))
+        else:
+            n, q, d = t[1]
+            ops.append("(ShTr %s %s %s, %s)" % (zt(n), zt(QUALS.index(q)), cbool(d == "up"), _cparts(t[2])))
+    return "(%s, %s)" % (_cparts(init_flat), clist(ops))
+
+
+def corpus_score_histories():
+    path = os.path.join(os.path.dirname(os.path.abspath(__file__)), "..", "..", "corpus", "C16", "score_histories.json")
+    try:
+        with open(path) as f:
+            return json.load(f)
+    except Exception:
+        return []
+
+
+def run_score_histories(ctx):
+    rng = ctx.rng
+    nh = 260 if ctx.tier == "quick" else 2600
+    hists = list(corpus_score_histories()) + [gen_score_history(rng) for _ in range(nh)]
+    terms, kept, nviol = [], [], 0
+    for h in hists:
+        ctx.evaluations += 1
+        try:
+            fails, (init_flat, trace), counts = run_score_history(h)
+        except Exception as e:
+            fails, init_flat, trace, counts = [(-1, ["the history could not be executed: %s: %s" % (type(e).__name__, e)])], None, None, {}
+        for k, v in sorted(counts.items()):
+            ctx.count("score-history " + k, v)
+        ctx.count("score-history arg:" + h["init"]["arg"])
+        if fails:
+            nviol += 1
+            if nviol <= 4:
+                small = shrink_score_history(h)
+                try:
+                    f2 = run_score_history(small)[0] or fails
+                except Exception as e:
+                    f2 = [(-1, ["%s: %s" % (type(e).__name__, e)])]
+                oi, msgs = f2[0]
+                ctx.violation("the argument has a history: %s  ->  %s" % ("; ".join(hist_op_txt(o) for o in small["ops"][:oi + 1 if oi >= 0 else None]),
+                                                                          "; ".join(msgs)[:700]),
+                              {"kind": "score_history", "init": small["init"], "ops": small["ops"], "failures": msgs})
+            continue
+        changed = any(t[0] in ("set", "edit", "replace", "adopt") for t in trace)
+        if changed and any(t[0] == "tr" for t in trace):
+            ctx.nontrivial(("score_history", json.dumps(h, sort_keys=True)))
+        terms.append(score_history_term(init_flat, trace))
+        kept.append({"kind": "score_history", "init": h["init"], "ops": h["ops"]})
+    ctx.log('score histories: %d executed, %d failing, %d to Coq' % (len(hists), nviol, len(terms)))
+    if not terms:
+        ctx.obligation("correspondence: Coq machine sh_case_ok = transpose() on score histories", False, "every history already failed the direct oracle")
+        return
+    try:
+        failing = ctx.coq_failing("scorehist", "From PV Require Import Model.C16 Model.C16_Hist.", "", terms, "sh_case_ok", shard=30)
+        detail = failing[:5]
+    except RuntimeError as e:
+        failing, detail = [-1], str(e)[-1500:]
+    ctx.obligation("correspondence: the Gallina machine of Model/C16_Hist.v (score[i] = part, edits in place, unfolding, the result "
+                   "transposed again; every transposition = transpose_elems over the CURRENT parts) reproduces what the public views of "
+                   "transpose()'s result show, on %d observed histories" % len(terms), not failing, detail)
+    for i in failing[:4]:
+        if i < 0:
+            ctx.violation("score-history correspondence could not be evaluated in Coq: " + str(detail)[-600:], {"kind": "coq", "error": detail}, no_input=True)
+        else:
+            ctx.violation("Coq score-history machine and transpose() disagree (the Python oracle accepted the history)", kept[i])
+
+
+def replay_score_history(r):
+    h = {"init": r["init"], "ops": r["ops"]}
+    fails, (init_flat, trace), _ = run_score_history(h, stop_at_first=False)
+    fd = dict(fails)
+    for oi, op in enumerate(h["ops"]):
+        print("  %d. %s%s" % (oi + 1, hist_op_txt(op), "" if oi not in fd else "\n       -> " + "\n       -> ".join(fd[oi])))
+    print("oracle now says:", "property violated at step(s) %s" % sorted(o + 1 for o in fd) if fd else
+          "every transposition moved every note of the parts the argument held at that moment; the arguments stayed as they were")
+    return 0
 
 
 # ----------------------------------------------------------------------------
@@ -1448,7 +1858,15 @@ def run(ctx):
                 "returning to one degree number / mode / key with different accidentals, 35% repeat a call -- each executed forwards "
                 "and reversed in a child forked from a fresh interpreter; every observation against the diatonic arithmetic of its "
                 "own arguments and against the same call alone in a fresh interpreter.  Non-trivial = sequences passing both orders; "
-                "table rows with an accidental on the degree or the key.")
+                "table rows with an accidental on the degree or the key.  "
+                "SCORE-HISTORY stream (the ARGUMENT has a history): 260 (thorough 2600) generated histories + corpus/C16/score_histories.json "
+                "on ONE live Score (75%, 1-3 parts, 40% with a group) or Part (25%): optional first transposition, 2-6 operations -- "
+                "score[i] = part 24%, score.parts.append / pop 6%, unfold_part_maximal/minimal 10%, a part edited in place (note added / "
+                "removed / re-pitched) 18%, score = transpose(score, iv) 12%, transpose(score, iv) with the argument kept 30% -- and a closing "
+                "transposition; 45% of the intervals repeat one the history used before, half of the parts put in later carry the id of an "
+                "initial part; every transposition judged note by note against the parts the argument holds at that moment through "
+                "result.parts, result[i], iter(result), result.note_array(); argument unchanged; no shared objects.  Non-trivial = "
+                "histories with a state change and a transposition that pass.")
     ctx.trusted = ["Coq 8.16.1 kernel incl. vm_compute",
                    "T2 tabulator and flattening/fingerprint code in harness/props/c16.py (runs the real functions, prints Coq literals; "
                    "step letters are interned C=0..B=6, alter None is read as 0)",
@@ -1456,6 +1874,8 @@ def run(ctx):
                    "fingerprints of non-pitch attributes are compared as 48-bit SHA-1 prefixes inside Coq (full strings in Python)",
                    "history stream: the operation runner / field reader of harness/props/c12.py (run_iv_history) and the printing of "
                    "observed histories as Coq terms",
+                   "score-history stream: the operation runner run_score_history / judge_transposition of harness/props/c16.py and the "
+                   "printing of the observed histories as Coq terms (a part = its flattened elements, as in the driver stream)",
                    "roots stream: the fresh-interpreter server (fork per request) and the reading of degree texts / key names into the "
                    "facts the model takes (deg_facts, key_facts, parse_name in harness/props/c16.py); string handling of "
                    "process_local_key / RomanNumeral is compared by the direct oracle only"]
@@ -1495,7 +1915,7 @@ def run(ctx):
     # T1 tie (harness/t1.py): see c12.py
     t1_ok = t1.tie(ctx, "C16")
     ctx.log('T1 tie: %s' % t1_ok)
-    ok, why = ctx.coq_props(expect_min=38)
+    ok, why = ctx.coq_props(expect_min=43)
     ctx.log('Props/C16.v checked: %s %s' % (ok, why[:300]))
     for what, rep in bad[:8]:
         ctx.violation(what, rep)
@@ -1508,6 +1928,8 @@ def run(ctx):
     # harness/props/c12.py run_histories, Model/C12_Interval.v)
     from props import c12 as hist12
     hist12.run_histories(ctx, with_tr=True, objects=False)
+    # the ARGUMENT has a history: score[i] = part, unfolding, edits in place, the result transposed again
+    run_score_histories(ctx)
     # chord roots / local keys: sequences of calls in one interpreter, forwards and reversed
     roots_thread.join()
     ctx.log('roots: %d sequences executed in fresh interpreters (worker finished at %ss)' % (len(roots_hists), roots_box.get('done_at')))
@@ -1550,6 +1972,8 @@ def replay(obj):
         return hist12.replay_history(r)
     if k == "roots":
         return replay_roots(r)
+    if k == "score_history":
+        return replay_score_history(r)
     if k == "roots_table":
         srv = fresh_servers(1)[0]
         fwd, rev = srv.run([["plk_table", "twice"]])[0]
